@@ -323,24 +323,37 @@ Definition all_handlers_exact (n : N) : bool := forallb handlers_exact (plugins_
 Record switches := { wait_cfg_unguarded : bool; stale_close_unfiltered : bool; dead_conn_reused : bool;
   (* a variant of the second defect: connClosed does filter, but by a number that is advanced only when an
      ESTABLISHED session is closed, so the client of a failed Start shares its number with the next client *)
-  failed_start_shares_session : bool }.
+  failed_start_shares_session : bool;
+  (* Configure hands its result to Start (the send on cfgErrC) on every way it can end; one switch per way
+     that omits it: accepted, the plugin's hook failed, the stub refused the mask (unhandled events) *)
+  cfg_ok_unsent : bool; cfg_hookerr_unsent : bool; cfg_reject_unsent : bool }.
 
 Definition fixed : switches :=
   {| wait_cfg_unguarded := false; stale_close_unfiltered := false; dead_conn_reused := false;
-     failed_start_shares_session := false |}.
+     failed_start_shares_session := false;
+     cfg_ok_unsent := false; cfg_hookerr_unsent := false; cfg_reject_unsent := false |}.
 (* the code as pinned in round 1: all three defects present *)
 Definition pinned : switches :=
   {| wait_cfg_unguarded := true; stale_close_unfiltered := true; dead_conn_reused := true;
-     failed_start_shares_session := false |}.
+     failed_start_shares_session := false;
+     cfg_ok_unsent := false; cfg_hookerr_unsent := false; cfg_reject_unsent := false |}.
 (* the repaired code with the session number advanced in close() instead of Start() *)
 Definition shared_session : switches :=
   {| wait_cfg_unguarded := false; stale_close_unfiltered := false; dead_conn_reused := false;
-     failed_start_shares_session := true |}.
+     failed_start_shares_session := true;
+     cfg_ok_unsent := false; cfg_hookerr_unsent := false; cfg_reject_unsent := false |}.
+(* the repaired code with explicit sends in Configure, the one on the rejection path missing *)
+Definition reject_unsent : switches :=
+  {| wait_cfg_unguarded := false; stale_close_unfiltered := false; dead_conn_reused := false;
+     failed_start_shares_session := false;
+     cfg_ok_unsent := false; cfg_hookerr_unsent := false; cfg_reject_unsent := true |}.
 (* the switch values of the CURRENT code in /repo: read from the shapes of Start and connClosed on
    every run (Model/StubConsts.v; a switch is off only when the repaired shape is recognised) *)
 Definition faithful : switches :=
   {| wait_cfg_unguarded := life_wait_cfg_unguarded; stale_close_unfiltered := life_stale_close_unfiltered;
-     dead_conn_reused := life_dead_conn_reused; failed_start_shares_session := life_session_not_per_client |}.
+     dead_conn_reused := life_dead_conn_reused; failed_start_shares_session := life_session_not_per_client;
+     cfg_ok_unsent := life_cfg_ok_unsent; cfg_hookerr_unsent := life_cfg_hookerr_unsent;
+     cfg_reject_unsent := life_cfg_reject_unsent |}.
 
 (* stub.conn: nil, the socket dialled for generation g (live), or that socket closed / peer gone *)
 Inductive conn := CNone | CLive (g : nat) | CDead (g : nat).
@@ -351,8 +364,10 @@ Definition conn_gen (c : conn) : option nat := match c with CNone => None | CLiv
 (* where the stub stands.  Idle: not started, lock free.  Dialing..AwaitConfigure:
    inside Start, lock held (Dialing = connect(); MuxUp = mux, listener, server, client set-up;
    Registering = RegisterPlugin under the registration time-out; AwaitConfigure = <-cfgErrC).
-   Configured: started, lock free.  Closing: inside close(), lock held, waiting for the server loop. *)
-Inductive phase := Idle | Dialing | MuxUp | Registering | AwaitConfigure | Configured | Closing.
+   Configured: started, lock free.  Closing: inside close(), lock held, waiting for the server loop.
+   AwaitLost: inside Start, lock held; Configure has been handled but its result was never handed to
+   Start, which still sits in its wait: only a lost connection can release it. *)
+Inductive phase := Idle | Dialing | MuxUp | Registering | AwaitConfigure | AwaitLost | Configured | Closing.
 
 Inductive result := ResOk | ResErr | ResAlready.
 
@@ -384,7 +399,7 @@ Inductive action :=
 | ISetupOk | ISetupFail             (* mux / listener / server / client set-up (internal; can fail on bad options) *)
 | ERegOk | ERegRefused              (* RegisterPlugin answered *)
 | ETimeout                          (* the registration time-out expires (silent peer) *)
-| ECfgOk | ECfgErr                  (* Configure handled: result nil / error put on cfgErrC *)
+| ECfgOk | ECfgErr | ECfgRejected   (* Configure handled: accepted / the plugin's hook failed / the stub refused the mask *)
 | EConnLost                         (* the connection is lost (peer closes, or the stub notices a dead one) *)
 | IServeDone.                       (* the ttrpc server loop returns after rpcs.Close(): doneC is closed *)
 
@@ -431,7 +446,7 @@ Definition shares_session (s : state) (g : nat) : bool :=
 Definition lock_free (s : state) : bool :=
   match ph s with Idle | Configured => true | _ => false end.
 Definition start_pending (s : state) : bool :=
-  match ph s with Dialing | MuxUp | Registering | AwaitConfigure => true | _ => false end.
+  match ph s with Dialing | MuxUp | Registering | AwaitConfigure | AwaitLost => true | _ => false end.
 
 Definition step (sw : switches) (s : state) (a : action) : state :=
   match a, ph s with
@@ -469,12 +484,16 @@ Definition step (sw : switches) (s : state) (a : action) : state :=
                                    last_start := last_start s |})
   | ECfgOk, AwaitConfigure =>
       if conn_live (sconn s) then
+        if cfg_ok_unsent sw then set_ph s AwaitLost else
         {| gen := gen s; started := true; sconn := sconn s; ph := Configured; cli_open := cli_open s;
            pending := pending s; closer := None; fired := fired s; established := gen s :: established s;
            waiters := waiters s; last_start := Some ResOk |}
       else s
-  | ECfgErr, AwaitConfigure => if conn_live (sconn s) then fail_start sw s else s
-  | EConnLost, AwaitConfigure =>
+  | ECfgErr, AwaitConfigure =>
+      if conn_live (sconn s) then (if cfg_hookerr_unsent sw then set_ph s AwaitLost else fail_start sw s) else s
+  | ECfgRejected, AwaitConfigure =>
+      if conn_live (sconn s) then (if cfg_reject_unsent sw then set_ph s AwaitLost else fail_start sw s) else s
+  | EConnLost, AwaitConfigure | EConnLost, AwaitLost =>
       let s1 := emit_close {| gen := gen s; started := started s; sconn := kill (sconn s); ph := ph s;
                               cli_open := cli_open s; pending := pending s; closer := closer s;
                               fired := fired s; established := established s; waiters := waiters s;
@@ -531,14 +550,15 @@ Definition enabled_env (sw : switches) (s : state) : list action :=
   | Registering =>
       if conn_live (sconn s) then [ERegOk; ERegRefused; EConnLost; ETimeout] else [EConnLost; ETimeout]
   | AwaitConfigure =>
-      if conn_live (sconn s) then [ECfgOk; ECfgErr; EConnLost] else []
+      if conn_live (sconn s) then [ECfgOk; ECfgErr; ECfgRejected; EConnLost] else []
+  | AwaitLost => []   (* a runtime end that keeps the connection is not bound to do anything any more *)
   | Closing => [IServeDone]
   | _ => []
   end.
 
 (* how far a Start is from returning *)
 Definition rank (s : state) : nat :=
-  match ph s with Dialing => 4 | MuxUp => 3 | Registering => 2 | AwaitConfigure => 1 | _ => 0 end.
+  match ph s with Dialing => 4 | MuxUp => 3 | Registering => 2 | AwaitConfigure | AwaitLost => 1 | _ => 0 end.
 
 (* the scheduler lets every waiting connClosed and the server loop run: deliver what can be delivered *)
 Fixpoint drain (sw : switches) (fuel : nat) (s : state) : state :=
@@ -573,7 +593,10 @@ Inductive behaviour :=
 | BDropInReg        (* connection dropped on receipt of RegisterPlugin, no answer *)
 | BSilentReg        (* RegisterPlugin never answered: the registration time-out expires *)
 | BDropAfterReg     (* registration answered, connection dropped before Configure is sent *)
-| BCfgError         (* the plugin's Configure fails *)
+| BCfgError         (* the plugin's Configure hook fails; the runtime end keeps the connection *)
+| BCfgReject        (* the hook returns an event without handler: the stub refuses; the runtime end keeps the connection *)
+| BCfgErrorDrop     (* as BCfgError, and the runtime end then drops the connection (as pkg/adaptation does) *)
+| BCfgRejectDrop    (* as BCfgReject, then dropped *)
 | BDropAfterCfg.    (* configured, then the connection is dropped *)
 
 Definition start_actions (b : behaviour) : list action :=
@@ -585,6 +608,9 @@ Definition start_actions (b : behaviour) : list action :=
   | BSilentReg => [AStart; EDialOk; ISetupOk; ETimeout]
   | BDropAfterReg => [AStart; EDialOk; ISetupOk; ERegOk; EConnLost]
   | BCfgError => [AStart; EDialOk; ISetupOk; ERegOk; ECfgErr]
+  | BCfgReject => [AStart; EDialOk; ISetupOk; ERegOk; ECfgRejected]
+  | BCfgErrorDrop => [AStart; EDialOk; ISetupOk; ERegOk; ECfgErr; EConnLost]
+  | BCfgRejectDrop => [AStart; EDialOk; ISetupOk; ERegOk; ECfgRejected; EConnLost]
   | BDropAfterCfg => [AStart; EDialOk; ISetupOk; ERegOk; ECfgOk; EConnLost]
   end.
 
